@@ -100,6 +100,7 @@ fn fault_opts() -> GraphOpts {
         mega: false,
         symlinks: false,
         read_above: false,
+        scratch_dir: false,
     }
 }
 
